@@ -491,6 +491,7 @@ type Clause struct {
 	Line int
 	File string
 	Ord  int // ordinal within its kind inside the contract
+	Family, Allowed string // onlywrites
 }
 
 func (c *Clause) HasTag(p string) bool {
@@ -846,6 +847,22 @@ func (db *ContractDB) ParseContractFile(fset *token.FileSet, f *ast.File, pkgPat
 				return fail(l.no, "pure outside func")
 			}
 			cur.Pure = true
+		case "onlywrites":
+			// onlywrites [tags] "family-regexp" : "allowed-regexp"
+			tags, body := parseTags(rest)
+			parts := splitTop(body, ':')
+			if cur == nil || len(parts) != 2 {
+				return fail(l.no, "onlywrites wants: \"family\" : \"allowed\" inside a func contract")
+			}
+			fam, err1 := strconv.Unquote(parts[0])
+			alw, err2 := strconv.Unquote(parts[1])
+			if err1 != nil || err2 != nil {
+				return fail(l.no, "onlywrites wants two quoted regular expressions")
+			}
+			cl := &Clause{Kind: "onlywrites", Tags: tags, Src: body, Line: l.no, File: filename, Family: fam, Allowed: alw}
+			cl.Ord = counts[word]
+			counts[word]++
+			cur.Clauses = append(cur.Clauses, cl)
 		case "requires", "ensures", "invariant", "modifies", "decreases", "hyp", "concl":
 			tags, body := parseTags(rest)
 			cl := &Clause{Kind: word, Tags: tags, Src: body, Line: l.no, File: filename}
